@@ -3,7 +3,9 @@ package sched
 import (
 	"context"
 	"database/sql"
+	"fmt"
 	"io"
+	"strings"
 
 	"github.com/jdillenkofer/pithos/internal/storage/database"
 	"github.com/jdillenkofer/pithos/internal/storage/metadatapart/partstore"
@@ -71,6 +73,21 @@ func InstallTxHooks(extra func(site string, args ...any)) func() {
 			if t, ok := a.(*database.TxController); ok {
 				tc = t
 			}
+		}
+		switch {
+		case site == "sync.Mutex.Lock":
+			if len(args) > 0 {
+				Lock(canonName(args[0]))
+			}
+			return
+		case site == "sync.Mutex.Unlock":
+			if len(args) > 0 {
+				Unlock(canonName(args[0]))
+			}
+			return
+		case strings.HasPrefix(site, "os."):
+			Point(site, nil)
+			return
 		}
 		release := func() {
 			if tc != nil && !tc.ReadOnly() && s.Holder(WriterLock) == s.Me() {
@@ -146,4 +163,24 @@ func (y *YieldingReader) Read(p []byte) (int, error) {
 		p = p[:y.Chunk]
 	}
 	return y.R.Read(p)
+}
+
+// canonName names a mutex by the order in which the current execution first used it (addresses
+// differ between executions and would break replay determinism).
+func canonName(p any) string {
+	s := Current()
+	if s == nil {
+		return "mutex"
+	}
+	s.lockMu.Lock()
+	defer s.lockMu.Unlock()
+	if s.objNames == nil {
+		s.objNames = map[any]string{}
+	}
+	if n, ok := s.objNames[p]; ok {
+		return n
+	}
+	n := fmt.Sprintf("mutex#%d", len(s.objNames))
+	s.objNames[p] = n
+	return n
 }
